@@ -682,7 +682,10 @@ Definition step (strict : bool) (s : sys) (o : op) : M :=
                 let s2 := enq s1 (k_loop k) (TSetCb (a_conn a)) in
                 ret (if a_loaded a then force_close s2 (a_conn a) else s2)
               else
-              if strict && a_loaded a && negb (api_test (a_api a) k) then Rejected else   (* H3 = Conn_Race.set_ok *)
+              (* H3: the store does not overwrite kDisconnected (a close came between the state test and the store: F-19).
+                 Weaker than Conn_Race.set_ok, which also refuses the benign case of a second foreign shutdown() whose
+                 store finds the kDisconnecting of the first *)
+              if strict && a_loaded a && cstate_eqb (k_st k) Disconnected then Rejected else
               let s1 := set_calls s (drop_call u (s_calls s) ++ [mkCall u (a_conn a) (a_api a) (a_loaded a) true]) in
               ret (if a_loaded a && api_stores (a_api a)
                    then put s1 (a_conn a) (set_life k Disconnecting (k_ups k) (k_downs k)) else s1)
